@@ -186,6 +186,10 @@ def conform(ck, plans, invariants=STATE_INVS, par=4, on_reject=None):
     for p in plans:
         traces, facts = execute(p['impl'], p['cfg'], p['scripts'], p['nslots'],
                                 preempt=p.get('preempt'))
+        if p.get('relax'):
+            for t in traces:
+                for ln in t:
+                    ln['st']['relax'] = True
         done.append([p, traces, facts, None])
 
     def val(item):
@@ -207,7 +211,7 @@ def conform(ck, plans, invariants=STATE_INVS, par=4, on_reject=None):
         for t in traces:
             ck.distinct([[ln['ev'], ln['a']] for ln in t])
         rejected = list(v.rejected)
-        if p.get('preempt') is not None and rejected:
+        if (p.get('preempt') is not None or p.get('relax')) and rejected:
             # a pre-emptive schedule the block-to-block specification cannot follow (a task
             # switch inside a block) is judged by the history contract alone
             hv = tracecheck.validate('EioServerHistory', [traces[i] for i in rejected],
